@@ -75,15 +75,24 @@ class Ctx:
 # ---------------------------------------------------------------- building
 
 def build_harness(ctx, cmds=None, race=False):
-    """go build the harness commands against /repo's working tree."""
-    gs = os.path.join(HARNESS, 'go.sum')
-    try:
-        shutil.copyfile(os.path.join(REPO, 'go.sum'), gs)
-    except OSError:
-        pass
-    targets = ['./cmd/' + c for c in cmds] if cmds else ['./cmd/...']
+    """go build the harness commands against the working tree of REPO
+    (/repo, or $VERIF_REPO for experiments on a scratch worktree)."""
     env = goenv()
-    args = ['go', 'build', '-tags', 'verif']
+    modargs = []
+    if REPO == '/repo':
+        try:
+            shutil.copyfile(os.path.join(REPO, 'go.sum'), os.path.join(HARNESS, 'go.sum'))
+        except OSError:
+            pass
+    else:
+        tag = hashlib.sha1(REPO.encode()).hexdigest()[:8]
+        mf = os.path.join(BUILD, 'go.%s.mod' % tag)
+        os.makedirs(BUILD, exist_ok=True)
+        open(mf, 'w').write(open(os.path.join(HARNESS, 'go.mod')).read().replace('=> /repo', '=> ' + REPO))
+        shutil.copyfile(os.path.join(REPO, 'go.sum'), os.path.join(BUILD, 'go.%s.sum' % tag))
+        modargs = ['-modfile=' + mf]
+    targets = ['./cmd/' + c for c in cmds] if cmds else ['./cmd/...']
+    args = ['go', 'build', '-tags', 'verif'] + modargs
     if race:
         env['CGO_ENABLED'] = '1'
         args.append('-race')
@@ -94,10 +103,7 @@ def build_harness(ctx, cmds=None, race=False):
 
 
 def ensure_makefile():
-    mk = os.path.join(COQ, 'Makefile')
-    cp = os.path.join(COQ, '_CoqProject')
-    if not os.path.exists(mk) or os.path.getmtime(mk) < os.path.getmtime(cp):
-        sh(['coq_makefile', '-f', '_CoqProject', '-o', 'Makefile'], cwd=COQ)
+    sh([os.path.join(ROOT, 'tools', 'mkcoqproject.sh')])
 
 
 def coq_make(targets=None, timeout=3000):
@@ -236,10 +242,16 @@ def coq_cases(ctx, tag, imports, typ, run_fn, terms, shard=400, ordered=False):
 # ---------------------------------------------------------------- findings
 
 def load_known():
+    out = []
     p = os.path.join(ROOT, 'known_findings.json')
-    if not os.path.exists(p):
-        return []
-    return json.load(open(p)).get('findings', [])
+    if os.path.exists(p):
+        out += json.load(open(p)).get('findings', [])
+    d = os.path.join(ROOT, 'known_findings.d')
+    if os.path.isdir(d):
+        for f in sorted(os.listdir(d)):
+            if f.endswith('.json'):
+                out += json.load(open(os.path.join(d, f))).get('findings', [])
+    return out
 
 
 def match_known(prop, fail, known):
